@@ -36,6 +36,7 @@ type Reply struct {
 	Connection []string    `json:"connection"`
 	Extra      [][2]string `json:"extra,omitempty"`
 	BodyLen    int         `json:"body_len,omitempty"`
+	BodySent   int         `json:"body_sent,omitempty"` // >0: only this many body bytes are sent, then silence (Content-Length still says BodyLen)
 	TruncAt    int         `json:"trunc_at,omitempty"` // >0: send only this many bytes of the reply, then close
 	Raw        []byte      `json:"raw,omitempty"`      // free-form reply bytes (C07)
 	CloseAfter bool        `json:"close_after,omitempty"`
@@ -615,7 +616,11 @@ func (h *hsRunner) buildReply(r *Reply, key string, dialIdx int) []byte {
 		fmt.Fprintf(&b, "Content-Length: %d\r\n", r.BodyLen)
 	}
 	b.WriteString("\r\n")
-	for i := 0; i < r.BodyLen; i++ {
+	n := r.BodyLen
+	if r.BodySent > 0 && r.BodySent < n {
+		n = r.BodySent
+	}
+	for i := 0; i < n; i++ {
 		b.WriteByte(byte('a' + i%26))
 	}
 	return b.Bytes()
